@@ -9,6 +9,13 @@
 
 #define CC_H
 #include <pthread.h>
+#ifdef PAD_UNION_MEMBER
+/* Cut (R17): the runner hands this harness a scratch copy of cache-priv.h in which the page union member under test got a trailing pad
+   that makes it the WIDEST member.  cbmc represents a union by its widest member; stores to any other member are lowered to byte updates
+   over the whole 4.4 KB union (parse_pop: 6.3 GB, 420 s; with the pad: see DESIGN 0.2).  Layout of the member itself is unchanged; the pad is
+   part of the frame assertion (stays zero).  Included first so that its include guard wins over /repo/src/cache-priv.h. */
+#include "cache-priv.h"
+#endif
 #include "src/bcd.h"
 #include "src/format.h"
 #ifndef VBI_DECODER
@@ -64,6 +71,10 @@ vbi_bool vbi_decode_vps_pdc(vbi_program_id *pid, const uint8_t b[13]) { (void) p
 size_t _vbi_strlcpy(char *dst, const char *src, size_t size) { size_t i = 0; if (size) { for (; i + 1 < size && src[i]; i++) dst[i] = src[i]; dst[i] = 0; } return i; }
 
 /* ---------------- helpers ---------------- */
+/* the state objects are statics, every cbmc run / native replay process executes ONE harness function: they are all-zero already.
+   An explicit memset of a 4.4 KB object turns it into one byte array for cbmc (array_set), after which no member constant-folds (R12). */
+#define ZERO_STATIC(x) do { } while (0)
+
 /* run `call` with the symbolic value v bound to a compile-time constant k (exhaustive case split lo..hi):
    symex then sees concrete switch arms and concrete indices (DESIGN R2) */
 #ifdef PKTSEL   /* the runner enumerates the value (one cbmc run per packet number) */
@@ -72,6 +83,19 @@ size_t _vbi_strlcpy(char *dst, const char *src, size_t size) { size_t i = 0; if 
 #define FOR_CONCRETE(k, lo, hi, v, call) do { int k; for (k = (lo); k <= (hi); k++) if ((v) == k) { call; } } while (0)
 #endif
 
+/* the comparison helpers below are harness code over harness-owned objects with constant sizes: cbmc's automatic pointer/bounds/overflow
+   checks are switched off INSIDE them (they produced > 160 000 VCCs per run and most of the symex time); the code under test keeps every
+   check, and the native replay build runs the helpers under ASan/UBSan */
+#ifdef VERIF_CBMC
+#pragma CPROVER check push
+#pragma CPROVER check disable "pointer"
+#pragma CPROVER check disable "bounds"
+#pragma CPROVER check disable "pointer-overflow"
+#pragma CPROVER check disable "signed-overflow"
+#pragma CPROVER check disable "unsigned-overflow"
+#pragma CPROVER check disable "pointer-primitive"
+#pragma CPROVER check disable "conversion"
+#endif
 static int bytes_eq(const void *a, const void *b, size_t n)
 { const uint8_t *p = a, *q = b; size_t i; int ok = 1; for (i = 0; i < n; i++) ok &= (p[i] == q[i]); return ok; }
 
@@ -83,6 +107,9 @@ static int zero_except(const void *obj, size_t size, size_t lo, size_t hi)
 
 /* flip one bit (pos < 8*n) or none (pos >= 8*n) */
 static void flip(uint8_t *p, unsigned n, unsigned pos) { unsigned i; for (i = 0; i < n; i++) if (pos / 8 == i) p[i] ^= (uint8_t) (1u << (pos % 8)); }
+#ifdef VERIF_CBMC
+#pragma CPROVER check pop
+#endif
 /* overwrite the Hamming 8/4 byte `by` (loop over constants: no symbolic index) with the clean code word of d */
 static void put_ham8(uint8_t *raw, unsigned n, unsigned by, unsigned d) { unsigned i; for (i = 0; i < n; i++) if (i == by) raw[i] = (uint8_t) ref_ham8(d & 15); }
 /* overwrite triplet t (bytes 1+3t..3+3t) with the clean Hamming 24/18 code word of d */
@@ -162,7 +189,7 @@ V_HARNESS(h_mot)
 {
   uint8_t raw[40], r2[40]; int packet; unsigned pos; int i, k2; int8_t exp_pop[256], exp_drcs[256];
   V_INIT();
-  memset(&MAG, 0, sizeof MAG); memset(&MAG2, 0, sizeof MAG2);   /* parse_mot never reads the magazine: concrete initial state loses nothing */
+  ZERO_STATIC(MAG); ZERO_STATIC(MAG2);   /* parse_mot never reads the magazine: concrete initial state loses nothing */
   in_bytes(raw, 40); packet = in_u8() & 31; pos = in_u16();
   V_ASSUME(pos < 320);
   put_ham8(raw, 40, pos / 8, in_u8());          /* the byte that will be hit is a code word; all others arbitrary */
@@ -204,7 +231,7 @@ V_HARNESS(h_pop)
 {
   uint8_t raw[40], r2[40]; int packet; unsigned pos, d; vbi_bool a, b;
   V_INIT();
-  memset(&CP, 0, sizeof CP); memset(&CP2, 0, sizeof CP2);       /* parse_pop only writes */
+  ZERO_STATIC(CP); ZERO_STATIC(CP2);       /* parse_pop only writes */
   in_bytes(raw, 40); packet = in_u8() & 31; pos = in_u16(); d = in_u32();
   V_ASSUME(packet >= 1 && packet <= 26);
   V_ASSUME(pos < 320);
@@ -243,7 +270,7 @@ V_HARNESS(h_27)
 {
   uint8_t raw[40], r2[40]; unsigned pos, mag0, d, des; vbi_bool a, b;
   V_INIT();
-  memset(&CP, 0, sizeof CP); memset(&CP2, 0, sizeof CP2);       /* parse_27 reads only cvtp->function (LOP here; DISCARD returns at once) */
+  ZERO_STATIC(CP); ZERO_STATIC(CP2);       /* parse_27 reads only cvtp->function (LOP here; DISCARD returns at once) */
   in_bytes(raw, 40); pos = in_u16(); mag0 = in_u8() & 7; d = in_u32(); des = in_u8() & 15;
 #ifdef DESSEL    /* designation code enumerated by the runner */
   des = (DESSEL);
@@ -274,7 +301,7 @@ V_HARNESS(h_27_links)
 {
   uint8_t raw[40]; unsigned mag0, i, des; unsigned mag_link[6], page[6], subno[6]; vbi_bool r; unsigned ctl;
   V_INIT();
-  memset(&CP, 0, sizeof CP); CP.function = PAGE_FUNCTION_LOP;
+  ZERO_STATIC(CP); CP.function = PAGE_FUNCTION_LOP;
   mag0 = in_u8() & 7; des = in_u8() & 3; ctl = in_u8() & 15;
   raw[0] = ref_ham8(des);
   for (i = 0; i < 6; i++) { mag_link[i] = 1 + (in_u8() & 7); page[i] = in_u8(); subno[i] = in_u16() & 0x3F7F;
@@ -297,7 +324,7 @@ V_HARNESS(h_ait)
 {
   uint8_t raw[40], r2[40]; int packet; unsigned pos;
   V_INIT();
-  memset(&CP, 0, sizeof CP); memset(&CP2, 0, sizeof CP2);
+  ZERO_STATIC(CP); ZERO_STATIC(CP2);
   in_bytes(raw, 40); packet = in_u8() & 31; pos = in_u16();
   /* links (bytes 0..7, 20..27) are Hamming 8/4: single error corrected */
   V_ASSUME(pos < 320 && ((pos / 8) < 8 || ((pos / 8) >= 20 && (pos / 8) < 28)));
@@ -526,7 +553,7 @@ V_HARNESS(h_mip)
   const int mag8 = (MAGN & 7) ? (MAGN & 7) : 8;
   V_INIT();
   ttx_state_init();
-  memset(&CP, 0, sizeof CP);
+  ZERO_STATIC(CP);
   CP.pgno = mag8 * 0x100 + 0xFD; CP.function = PAGE_FUNCTION_MIP;
   CP.lop_packets = in_u32() & 0x3FFFFFF;
   in_bytes(&CP.data.unknown.raw[0][0], sizeof CP.data.unknown.raw);
@@ -551,7 +578,7 @@ V_HARNESS(h_drcs)
   unsigned i;
   V_INIT();
   init_expand();
-  memset(&CPD, 0, sizeof CPD);
+  ZERO_STATIC(CPD);
   CPD.function = PAGE_FUNCTION_DRCS;
   CPD.lop_packets = in_u32() & 0x3FFFFFF;
   in_bytes(&CPD.data.drcs.lop.raw[1][0], 24 * 40);
@@ -625,7 +652,7 @@ V_HARNESS(h_lop_parity_x26)
 {
   unsigned i, t, arow = 0; int overridden[40]; int blocked = 0;
   V_INIT();
-  memset(&CP, 0, sizeof CP); 
+  ZERO_STATIC(CP); 
   in_bytes(CP.data.lop.raw[ROWSEL_X], 40);
   CP.lop_packets = in_u32() & 0x3FFFFFF; CP.x26_designations = 1;
   memset(CP.data.enh_lop.enh, 0xFF, sizeof CP.data.enh_lop.enh);       /* unused triplets: address 0xFF terminates */
